@@ -72,6 +72,8 @@ type concOut struct {
 	sizeAtEnd  int
 	pillsLeft  int
 	nilGets    int64
+	runaway    int32 // a producer's PutForce was aborted by the callbacks' runaway guard
+	stopped    bool  // consumers were told to stop because nothing moved any more (pills not delivered)
 	clears     int64
 	sizeObs    int64
 	sizeBad    string
@@ -88,6 +90,10 @@ var consProfiles = map[string][3]int{ // weights Get, GetNoWait, GetTimeout
 var consProfNames = []string{"get", "nowait", "timeout", "mixed", "get+nw", "get", "mixed"}
 
 func concCase(c *vlib.Ctx, kind int, i int, r *vlib.Rand) {
+	section := "conc-" + []string{"rq", "dq"}[kind]
+	if skipAbandoned(c, section, i) {
+		return
+	}
 	race := c.Flavour == "race"
 	p := concParams{}
 	p.P, p.C = r.Range(1, 8), r.Range(1, 8)
@@ -137,9 +143,17 @@ func concCase(c *vlib.Ctx, kind int, i int, r *vlib.Rand) {
 		} else {
 			c.Inconclusive(caseID, fmt.Sprintf("watchdog %v fired (bare timeout) %v", watchdog, st.Detail))
 		}
+		// goroutines of this history are leaked (parked or spinning); the structure does not
+		// recover by itself, so the rest of the section would only repeat the same stall
+		abandonSection(c, section, fmt.Sprintf("%s: stall in phase %v (conclusive=%v)", caseID, st.Detail["phase"], st.Conclusive))
 		return
 	}
-	checkConc(c, q, &p, out)
+	if checkConc(c, q, &p, out) > 0 && (out.stopped || out.runaway != 0) {
+		abandonSection(c, section, fmt.Sprintf("%s: the queue stopped delivering (consumers stopped by the monitor=%v, eviction loop aborted=%v); findings reported", caseID, out.stopped, out.runaway != 0))
+	}
+	if out.stopped {
+		c.Count("conc_histories_consumers_stopped_by_monitor", 1)
+	}
 	c.Count("conc_histories", 1)
 	c.SetAdd("conc_PxC", fmt.Sprintf("%dx%d", p.P, p.C))
 	c.SetAdd("conc_capacities", fmt.Sprint(p.Cap[0]))
@@ -153,7 +167,11 @@ func concCase(c *vlib.Ctx, kind int, i int, r *vlib.Rand) {
 func runConc(q qapi, p *concParams, r *vlib.Rand) (*concOut, *stall) {
 	out := &concOut{prod: make([][]opRec, p.P), cons: make([][]opRec, p.C)}
 	lanes := q.lanes()
-	// callbacks run with the queue's lock held: plain appends, no extra synchronisation
+	// callbacks run with the queue's lock held: plain appends, no extra synchronisation.
+	// No history can evict more than was ever offered: beyond that the eviction loop of a
+	// forced put is running away and is aborted (see runawayPanic). Failed is called at most
+	// once per refused put, outside any loop.
+	maxCB := p.P*p.PerProd + p.C + 64
 	fcb := func(v interface{}) {
 		switch x := v.(type) {
 		case uint64:
@@ -170,12 +188,16 @@ func runConc(q qapi, p *concParams, r *vlib.Rand) (*concOut, *stall) {
 		default:
 			out.cbForeign++
 		}
+		if len(out.evictedCB)+out.cbForeign > maxCB {
+			panic(runawayPanic{len(out.evictedCB) + out.cbForeign})
+		}
 	}
 	q.setCallbacks([2]func(interface{}){fcb, fcb}, [2]func(interface{}){ocb, ocb})
 
 	start := time.Now()
 	now := func() int64 { return int64(time.Since(start)) }
-	var delivered, nilGets int64
+	var delivered, nilGets, consExited int64
+	var stopCons int32
 	base := countParked(q.parkFrame())
 
 	// ---- consumers
@@ -187,10 +209,13 @@ func runConc(q qapi, p *concParams, r *vlib.Rand) (*concOut, *stall) {
 		cwg.Add(1)
 		go func(ci int, rr *vlib.Rand) {
 			defer cwg.Done()
+			defer atomic.AddInt64(&consExited, 1)
 			buf := make([]opRec, 0, 256)
+			defer func() { out.cons[ci] = buf }()
 			<-consStart
 			first := true
-			for got := 0; p.Budget == 0 || got < p.Budget; {
+			emptyGets := 0
+			for got := 0; (p.Budget == 0 || got < p.Budget) && got <= maxCB && atomic.LoadInt32(&stopCons) == 0; {
 				k := kGet + pickW(rr, prof[:])
 				if first && p.ConsFirst && prof[0] > 0 {
 					k = kGet // park before the first producer exists
@@ -208,10 +233,16 @@ func runConc(q qapi, p *concParams, r *vlib.Rand) (*concOut, *stall) {
 				}
 				t1 := now()
 				if v == nil {
-					if k == kGet {
-						buf = append(buf, opRec{Kind: kGet, ID: 0, T0: t0, T1: t1})
-					}
 					atomic.AddInt64(&nilGets, 1)
+					if k == kGet {
+						// a blocking get never comes back empty-handed: recorded (checkConc reports
+						// Get:empty-return) and, after the third, this consumer gives up instead of
+						// spinning on a Get that no longer blocks
+						buf = append(buf, opRec{Kind: kGet, ID: 0, T0: t0, T1: t1})
+						if emptyGets++; emptyGets >= 3 {
+							break
+						}
+					}
 					runtime.Gosched()
 					continue
 				}
@@ -226,7 +257,6 @@ func runConc(q qapi, p *concParams, r *vlib.Rand) (*concOut, *stall) {
 					runtime.Gosched()
 				}
 			}
-			out.cons[ci] = buf
 		}(ci, rr)
 	}
 	if p.ConsFirst {
@@ -296,6 +326,15 @@ func runConc(q qapi, p *concParams, r *vlib.Rand) (*concOut, *stall) {
 		go func(pi int, rr *vlib.Rand) {
 			defer pwg.Done()
 			buf := make([]opRec, 0, p.PerProd)
+			defer func() {
+				out.prod[pi] = buf
+				if e := recover(); e != nil {
+					if !isRunaway(e) {
+						panic(e)
+					}
+					atomic.StoreInt32(&out.runaway, 1) // the aborted PutForce is not recorded: it never returned
+				}
+			}()
 			<-prodStart
 			for s := 1; s <= p.PerProd; s++ {
 				lane := 0
@@ -329,7 +368,6 @@ func runConc(q qapi, p *concParams, r *vlib.Rand) (*concOut, *stall) {
 					}
 				}
 			}
-			out.prod[pi] = buf
 		}(pi, rr)
 	}
 	if !p.ConsFirst {
@@ -342,43 +380,55 @@ func runConc(q qapi, p *concParams, r *vlib.Rand) (*concOut, *stall) {
 		go func() { wg.Wait(); close(ch) }()
 		return ch
 	}
-	progress := func() int64 { return atomic.LoadInt64(&delivered) }
+	progress := func() int64 { return atomic.LoadInt64(&delivered) + atomic.LoadInt64(&consExited) }
 	if !waitDone(done(&pwg)) {
 		s := diagnoseStall(q, base, progress)
 		s.Conclusive = false // producers never wait for consumers: a stuck producer is not a lost wake-up
 		s.Detail["phase"] = "producers"
 		atomic.StoreInt32(&stop, 1)
+		atomic.StoreInt32(&stopCons, 1)
 		return nil, &s
 	}
 	atomic.StoreInt32(&stop, 1)
 	if !waitDone(done(&swg)) {
 		atomic.AddInt32(&stallsSeen, 1)
+		atomic.StoreInt32(&stopCons, 1)
 		s := stall{Detail: map[string]interface{}{"phase": "side goroutines"}}
 		return nil, &s
 	}
-	// ---- poison pills: one per consumer, into the low-priority lane, plain Put with retry
+	// ---- poison pills: one per consumer, into the low-priority lane, plain Put retried while
+	// refused. They are the normal way to end the consumers, but the shutdown does not rely on
+	// the queue delivering them: when neither a delivery nor a consumer exit has been seen for
+	// a whole watchdog the consumers are told to stop (those in a non-blocking get notice at
+	// once; one parked in the blocking Get cannot, which is then the stall to diagnose).
 	cdone := done(&cwg)
-	deadline := time.Now().Add(curWatchdog())
-	for n := 0; n < p.C; {
-		if q.put(p.PillLane, pill) {
-			n++
-			continue
+	var stopPills int32
+	pillDone := make(chan struct{})
+	go func() {
+		defer close(pillDone)
+		for n := 0; n < p.C && atomic.LoadInt32(&stopPills) == 0; {
+			if q.put(p.PillLane, pill) {
+				n++
+				continue
+			}
+			runtime.Gosched()
 		}
-		select {
-		case <-cdone:
-			n = p.C
-		default:
-		}
-		if time.Now().After(deadline) {
-			s := diagnoseStall(q, base, progress)
-			s.Detail["phase"] = "pills refused"
-			return nil, &s
-		}
-		runtime.Gosched()
+	}()
+	ok := waitProgress(cdone, progress)
+	if !ok {
+		out.stopped = true
+		atomic.StoreInt32(&stopCons, 1)
+		ok = waitFor(cdone, 2*time.Second)
 	}
-	if !waitDone(cdone) {
+	atomic.StoreInt32(&stopPills, 1)
+	if !ok {
 		s := diagnoseStall(q, base, progress)
 		s.Detail["phase"] = "consumers"
+		return nil, &s
+	}
+	if !waitFor(pillDone, curWatchdog()) {
+		atomic.AddInt32(&stallsSeen, 1)
+		s := stall{Detail: map[string]interface{}{"phase": "pill put does not return"}}
 		return nil, &s
 	}
 	// ---- quiescent: everything below is single-threaded
@@ -450,7 +500,7 @@ func (d *dom) find(qa, qb int64) (pt, bool) {
 	return x, x.b > qb
 }
 
-func checkConc(c *vlib.Ctx, q qapi, p *concParams, o *concOut) {
+func checkConc(c *vlib.Ctx, q qapi, p *concParams, o *concOut) int {
 	T := p.Type
 	fails := 0
 	fail := func(key, what string, extra map[string]interface{}) {
@@ -460,6 +510,10 @@ func checkConc(c *vlib.Ctx, q qapi, p *concParams, o *concOut) {
 		}
 		extra["params"] = p
 		c.Fail(key, what, extra)
+	}
+	if o.runaway != 0 {
+		fail(T+".PutForce:eviction-runaway", fmt.Sprintf("Overflowed/Failed were invoked %d times although only %d elements were ever offered: the eviction loop of a forced put does not terminate (aborted by the monitor)",
+			len(o.evictedCB)+o.cbForeign, p.P*p.PerProd), nil)
 	}
 	info := make(map[uint64]*elemInfo, p.P*p.PerProd)
 	var nAcc, nRef, nForceFalse, nForce int
@@ -682,4 +736,5 @@ func checkConc(c *vlib.Ctx, q qapi, p *concParams, o *concOut) {
 		c.Sample(map[string]interface{}{"section": "conc", "params": p, "accepted": nAcc, "refused": nRef, "delivered": nDel,
 			"evicted": len(o.evictedCB), "left": len(o.left), "clears": o.clears, "consumers_parked_before_first_put": o.parkedSeen})
 	}
+	return fails
 }
